@@ -20,6 +20,8 @@ pub fn run(check: &str, args: &Args, scratch: &Path) -> ShardReport {
         "kv" => crate::comp::kv::run(args, scratch),
         "buflog" => crate::comp::buflog::run(args, scratch),
         "storage" => crate::comp::storage::run(args, scratch),
+        "smcrash" => crate::comp::smcrash::run(args, scratch),
+        "replconv" => crate::comp::replconv::run(args, scratch),
         other => {
             let mut r = ShardReport::new(other);
             r.inconclusive.push(format!("unknown check {other}"));
@@ -91,8 +93,21 @@ fn run_sim_one(args: &Args, scratch: &Path) -> ShardReport {
     let props = args.str("props", "");
     let window = args.u64("window", 800);
     let plan = plan_for(&family, seed);
+    if args.has("dump") {
+        // SAFETY: single-threaded at this point
+        unsafe { std::env::set_var("DVERIF_KEEP_EVENTS", "1") };
+    }
     let out = run_plan(&plan, scratch);
     let mut rep = ShardReport::new("simone");
+    if args.has("dump") {
+        let pats: Vec<String> = args.str("grep", "").split('|').filter(|s| !s.is_empty()).map(|s| s.to_string()).collect();
+        for e in out.trace_around(u64::MAX / 2, u64::MAX / 2, usize::MAX) {
+            let s = e.to_string();
+            if pats.is_empty() || pats.iter().any(|p| s.contains(p.as_str())) {
+                eprintln!("{s}");
+            }
+        }
+    }
     rep.eval(true, out.signature);
     eprintln!("plan: {}", plan.describe());
     eprintln!("counters: {:?}", out.counters);
